@@ -134,9 +134,17 @@ func (c *Conn) doWrite(opcode Opcode, payload internal.Payload) error {
 		return err
 	}
 	err = internal.WriteN(c.conn, frame.Bytes())
-	_, _ = payload.WriteTo(&c.cpsWindow)
+	if isCompressedFrame(frame) {
+		_, _ = payload.WriteTo(&c.cpsWindow)
+	}
 	binaryPool.Put(frame)
 	return err
+}
+
+// 是否为压缩帧(RSV1). 只有压缩过的消息才会进入对端的LZ77滑动窗口
+// Reports whether the frame has RSV1 set. Only compressed messages enter the peer's LZ77 window.
+func isCompressedFrame(frame *bytes.Buffer) bool {
+	return frame.Bytes()[0]&uint8(64) != 0
 }
 
 // WebSocket帧配置, 用于重写连接里面的配置, 以适配各种场景
@@ -254,7 +262,9 @@ func (c *Broadcaster) writeFrame(socket *Conn, frame *bytes.Buffer) error {
 		return ErrConnClosed
 	}
 	var err = internal.WriteN(socket.conn, frame.Bytes())
-	_, _ = socket.cpsWindow.Write(c.payload)
+	if isCompressedFrame(frame) {
+		_, _ = socket.cpsWindow.Write(c.payload)
+	}
 	return err
 }
 
